@@ -6,7 +6,7 @@ Values are concrete *structures* (Adt/Tup/Seq/Ref/Box/Rc/Closure) whose leaves a
 Branching on a non-constant term forks (decision replay, no state copying); infeasible successors are pruned by z3.
 External callees go through a model table; an unknown external callee raises Missing (=> INCONCLUSIVE, never a pass).
 """
-import re, copy, functools
+import re, copy, functools, os
 import z3
 
 # =============================================================== parsing
@@ -195,6 +195,7 @@ class Abort(Exception): pass        # a panic on this path
 class Infeasible(Exception): pass   # path pruned
 class Missing(Exception): pass      # model missing / construct not encodable => inconclusive
 class Fuel(Exception): pass
+TRACE_RC = bool(os.environ.get('MIRSYM_TRACE_RC'))
 
 def opt(v=None): return Adt('Option', 'Some', [v]) if v is not None else Adt('Option', 'None', [])
 def ok(v): return Adt('Result', 'Ok', [v])
@@ -287,6 +288,8 @@ def _parse_place(t):
         if m: return b, p + (int(m.group(1)),)
         m = re.fullmatch(r'-(\d+) of (\d+)', idx)
         if m: return b, p + (('fromend', int(m.group(1))),)
+        m = re.fullmatch(r':-(\d+)', idx)          # Subslice from 0 with `to` counted from the end: rustc prints `[:-to]`
+        if m: return b, p + (('sub', 0, int(m.group(1))),)
         m = re.fullmatch(r'(\d+):(-?\d*)', idx)
         if m: return b, p + (('sub', int(m.group(1)), abs(int(m.group(2))) if m.group(2) not in ('', '-') else 0),)
         m = re.fullmatch(r'_(\d+)', idx)
@@ -416,6 +419,14 @@ class Engine:
             if r == z3.unknown: s.feas_unknown += 1
         return r != z3.unsat
 
+    def _pc_ids(s):
+        """ids of the conjuncts of the path condition (maintained incrementally; the path condition only grows within a path)"""
+        if getattr(s, '_pcid_for', None) is not s.pc or s._pcid_n > len(s.pc): s._pcid_for = s.pc; s._pcid_n = 0; s._pcid_set = set()
+        while s._pcid_n < len(s.pc):
+            c_ = s.pc[s._pcid_n]; s._pcid_n += 1
+            if z3.is_expr(c_): s._pcid_set.add(c_.get_id())
+        return s._pcid_set
+
     def choose(s, conds):
         """pick one feasible alternative (forks). conds: list of z3 Bool / python bool."""
         cs = []
@@ -425,15 +436,21 @@ class Engine:
         if s.cpos < len(s.cache): feas = s.cache[s.cpos]
         else:
             feas = []
-            for i, c in enumerate(cs):
-                if z3.is_false(c): continue
-                if z3.is_true(c) or s.feasible(c): feas.append(i)
+            # a condition that is already a conjunct of the path condition needs no solver call (loops that re-test the same
+            # symbolic condition every iteration would otherwise pay one query per iteration on an ever longer path condition)
+            have = s._pc_ids() if len(cs) == 2 else ()
+            if have and cs[0].get_id() in have and not z3.is_true(cs[0]) and (z3.is_not(cs[1]) and cs[1].arg(0).get_id() == cs[0].get_id() or z3.is_not(cs[0]) and cs[0].arg(0).get_id() == cs[1].get_id()): feas = [0]
+            elif have and cs[1].get_id() in have and not z3.is_true(cs[1]) and (z3.is_not(cs[1]) and cs[1].arg(0).get_id() == cs[0].get_id() or z3.is_not(cs[0]) and cs[0].arg(0).get_id() == cs[1].get_id()): feas = [1]
+            else:
+                for i, c in enumerate(cs):
+                    if z3.is_false(c): continue
+                    if z3.is_true(c) or s.feasible(c): feas.append(i)
             s.cache.append(feas)
         my_cpos = s.cpos; s.cpos += 1
         if not feas: raise Infeasible()
         if len(feas) == 1:
             c = cs[feas[0]]
-            if not z3.is_true(c): s.pc.append(c)
+            if not z3.is_true(c) and c.get_id() not in s._pc_ids(): s.pc.append(c)
             return feas[0]
         if s.dpos < len(s.decisions): k = s.decisions[s.dpos]; s.alts[s.dpos] = len(feas); s.dec_cpos[s.dpos] = my_cpos
         else: k = 0; s.decisions.append(0); s.alts.append(len(feas)); s.dec_cpos.append(my_cpos)
@@ -464,7 +481,9 @@ class Engine:
                 res = run(); out.append((list(s.pc), 'ok', res, list(s.log)))
             except Abort as e: out.append((list(s.pc), 'panic', str(e), list(s.log)))
             except Missing as e: out.append((list(s.pc), 'missing', str(e), list(s.log)))
-            except Fuel as e: out.append((list(s.pc), 'fuel', str(e), list(s.log)))
+            except Fuel as e:
+                out.append((list(s.pc), 'fuel', str(e), list(s.log)))
+                if getattr(s, 'stop_on_fuel', False): s.total_steps += s.steps; return out          # one non-termination candidate is enough (each costs the whole fuel)
             except Infeasible: pass
             s.total_steps += s.steps
             for i in range(len(dec), len(s.decisions)):
@@ -801,8 +820,13 @@ class Engine:
     def drop_value(s, v):
         if isinstance(v, RcV):
             v.obj.count -= 1; s.log.append(('rc_dec', v.obj.id, v.obj.count))
+            if TRACE_RC: print('   [rc_dec]', v.obj.id, '->', v.obj.count, 'in', getattr(getattr(s, 'cur_fn', None), 'name', None), 'model', getattr(s, '_cur_callee', None))
             if v.obj.count == 0: s.drop_value(v.obj.cell.v)
         elif isinstance(v, BoxV): s.drop_value(v.cell.v)
+        elif isinstance(v, Adt) and v.ty in ('Iter', 'PeekChars') and isinstance(v.fields[0], Seq) and isinstance(v.fields[1], int):
+            # an eager iterator / cursor (mirsym.iters): the items before the position were moved out by `next`; dropping the
+            # iterator drops only what it still owns
+            for f in v.fields[0].fields[v.fields[1]:]: s.drop_value(f)
         elif isinstance(v, (Adt, Tup, Seq, Closure)):
             for f in v.fields: s.drop_value(f)
 
